@@ -422,6 +422,13 @@ func getTcbInfo(fmspc string, getter trust.HTTPSGetter, collateral *Collateral) 
 		}
 	}
 	collateral.TcbInfoBody = tcbInfoRawBody
+	// Only the raw tcbInfo member is covered by the signature: take the values from it, not from the whole body.
+	collateral.TdxTcbInfo.TcbInfo = pcs.TcbInfo{}
+	if err := json.Unmarshal(tcbInfoRawBody, &collateral.TdxTcbInfo.TcbInfo); err != nil {
+		return &trust.AttestationRecreationErr{
+			Msg: fmt.Sprintf("unable to unmarshal tcbInfo: %v", err),
+		}
+	}
 	return nil
 }
 
@@ -457,6 +464,13 @@ func getQeIdentity(getter trust.HTTPSGetter, collateral *Collateral) error {
 		}
 	}
 	collateral.EnclaveIdentityBody = qeIdentityRawBody
+	// Only the raw enclaveIdentity member is covered by the signature: take the values from it, not from the whole body.
+	collateral.QeIdentity.EnclaveIdentity = pcs.EnclaveIdentity{}
+	if err := json.Unmarshal(qeIdentityRawBody, &collateral.QeIdentity.EnclaveIdentity); err != nil {
+		return &trust.AttestationRecreationErr{
+			Msg: fmt.Sprintf("unable to unmarshal enclaveIdentity: %v", err),
+		}
+	}
 	return nil
 }
 
